@@ -381,8 +381,10 @@ def correspond(ctx):
                     why = 'value %r, expected %s' % (res.get('value'), want)
                 elif (s, e) != (0, len(q) - 1):
                     why = 'span [%d,%d]' % (s, e)
-                elif res.get('unit') != E.CurrencySuffixList and False:
-                    why = ''
+                elif res.get('unit') != main:
+                    why = 'unit %r, expected the main unit %r' % (res.get('unit'), main)     # "… in the main unit"
+                elif name_iso.get(main) and not name_iso[main].startswith('_') and res.get('isoCurrency') != name_iso[main]:
+                    why = 'isoCurrency %r, the table assigns %r to %r' % (res.get('isoCurrency'), name_iso[main], main)
                 else:
                     ok = True
             if ok:
